@@ -34,6 +34,9 @@ func genC19(rt *rapid.T) *Request {
 	p.Paris = rapid.Bool().Draw(rt, "paris")
 	p.WantV6 = rapid.Bool().Draw(rt, "want_v6")
 	rq.HTTP = rapid.Bool().Draw(rt, "http")
+	if rq.HTTP {
+		p.NumStyle = oneOf(rt, "num_style", "", "", "zeros", "plus")
+	}
 	form := oneOf(rt, "target_form", "v4", "v4", "v6", "v6br", "v4port", "v6brport")
 	sackLike := strings.TrimSpace(strings.ToLower(p.Protocol)) == "tcp" && (p.TCPMethod == "sack" || p.TCPMethod == "prefer_sack")
 	if sackLike && form != "v6" && form != "v6br" && form != "v6brport" {
